@@ -41,13 +41,13 @@ def all_classes():
 
 
 def cached_attributes():
-    """[(class, attribute name, kind, newfun)] ; kind = method | property"""
+    """[(class, attribute name, kind, newfun)] ; kind = "method" | the original property object"""
     import tensordict.nn  # noqa: F401  (TensorDictParams)
     out = []
     for c in all_classes():
         for name, v in list(vars(c).items()):
             if isinstance(v, property) and _is_cache_newfun(v.fget):
-                out.append((c, name, "property", v.fget))
+                out.append((c, name, v, v.fget))          # keep the property object: its setter / deleter stay in place
             elif _is_cache_newfun(v):
                 out.append((c, name, "method", v))
     return out
@@ -100,7 +100,7 @@ def install(callback):
                 return out
             return monitored
         m = make()
-        setattr(c, name, property(m) if kind == "property" else m)
+        setattr(c, name, property(m, kind.fset, kind.fdel, kind.__doc__) if isinstance(kind, property) else m)
         _INSTALLED.append((c, name, kind, newfun))
     return len(_INSTALLED)
 
@@ -108,7 +108,7 @@ def install(callback):
 def uninstall():
     global CALLBACK
     for c, name, kind, newfun in _INSTALLED:
-        setattr(c, name, property(newfun) if kind == "property" else newfun)
+        setattr(c, name, kind if isinstance(kind, property) else newfun)
     _INSTALLED.clear()
     CALLBACK = None
 
